@@ -2,7 +2,7 @@
 import re
 import callgraph
 from core import CheckError
-from mirutil import call_name_matches, provenance
+from mirutil import call_name_matches, provenance, bool_switch
 from tables.recursion import TABLE
 
 LEVEL = "other"
@@ -127,6 +127,39 @@ def run(ck, facts, tier):
     analyse(ck, facts, TABLE, floor=20)
 
 
+def depth_guarded(fn, callee_re, field):
+    """The recursive call `callee` in `fn` is (a) on the not-too-deep edge of a comparison of `self.<field>` with a constant,
+    and (b) preceded, after that test, by an increment of `self.<field>`.  Returns (call found, guarded)."""
+    calls = [(bi, t) for bi, t in fn.calls() if call_name_matches(t, callee_re)]
+    if not calls:
+        return False, False
+    fld = ":" + field
+
+    def reads_field(op):
+        if op[0] == "k":
+            return False
+        if any(str(p).endswith(fld) for p in op[1][1:]):
+            return True
+        sd = fn.single_def(op[1][0])
+        return bool(sd and sd[2][0] == "use" and sd[2][1][0] != "k" and any(str(p).endswith(fld) for p in sd[2][1][1][1:]))
+    guards = []
+    for bi in range(len(fn.blocks)):
+        bs = bool_switch(fn, bi)
+        if bs and bs[0][0] == "rvalue" and bs[0][1][0] == "bin" and bs[0][1][1] in ("Ge", "Gt", "Lt", "Le", "Eq", "Ne"):
+            a, b = bs[0][1][2], bs[0][1][3]
+            if (reads_field(a) and fn.origin(b)[0] == "const") or (reads_field(b) and fn.origin(a)[0] == "const"):
+                guards.append((bi, bs[1], bs[2]))
+    incs = [bi for bi, b in enumerate(fn.blocks) for st in b["s"]
+            if st[0] == "=" and st[2][0] == "bin" and st[2][1] in ("AddWithOverflow", "Add") and reads_field(st[2][2])]
+    ok = True
+    for cb, t in calls:
+        g_ok = any(fn.dominates(gb, cb) and (cb in fn.reachable(e1, avoid={e2})) != (cb in fn.reachable(e2, avoid={e1}))
+                   for gb, e1, e2 in guards)
+        i_ok = any(fn.dominates(ib, cb) for ib in incs)
+        ok = ok and g_ok and i_ok
+    return True, ok
+
+
 def analyse(ck, facts, TABLE, floor):
     g, sites = collapsed_graph(facts)
     comps = []
@@ -158,6 +191,16 @@ def analyse(ck, facts, TABLE, floor):
                    "audited as %s: %s" % (e["class"], e["reason"]), locs[0] if locs else None)
             continue
         ok = True
+        dg = e.get("depth_guard")
+        if dg:
+            gfns = [f for f in facts.fns.values() if f.name == dg["fn"] and f.kind != "Closure"]
+            found, guarded = depth_guarded(gfns[0], dg["callee"], dg["field"]) if len(gfns) == 1 else (False, False)
+            if not (found and guarded):
+                ok = False
+                ck.bad("R16.1", "R16.1@%s#depth-guard-lost" % label, "the audit of this cycle rests on a depth guard (%s compares self.%s with a "
+                       "constant before it recurses into %s, and counts the level): %s" % (dg["fn"].split("::")[-1], dg["field"], dg["callee"],
+                                                                                           "the recursive call was not found" if not found else "the guard no longer holds"),
+                       locs[0] if locs else None)
         for edge, lst in sorted(back.items()):
             allowed = e["edges"].get(edge, 0)
             if len(lst) > allowed:
